@@ -55,7 +55,12 @@ ProbeOK == (IsZeroCell(ProbeSrc) /\ Ev.masked = 1)
            \/ (~IsZeroCell(ProbeSrc) /\ Ev.masked = 0 /\ Ev.idx = ProbeSrc)
 TProbe == More /\ Ev.t = "probe" /\ mode = "idle" /\ ProbeOK /\ UNCHANGED evars /\ Adv
 
-XConsume == TConsume \/ TReqX \/ TReqXInvalid \/ TRetX \/ TRefuse \/ TView \/ TProbe
+\* a finite-only index that numpy refuses (an integer out of range): the library may refuse when the view is
+\* made or when an element is read through it, with numpy's exception class; it never hands out an element
+\* (an event "viewvalue" -- an element was obtained through such a view -- is consumed by no action)
+TViewRefuse == More /\ Ev.t = "viewrefuse" /\ mode = "idle" /\ ~VF.ok /\ Ev.exc = VF.err /\ UNCHANGED evars /\ Adv
+
+XConsume == TConsume \/ TReqX \/ TReqXInvalid \/ TRetX \/ TRefuse \/ TView \/ TProbe \/ TViewRefuse
 
 XDiagnose ==
   LET t == Ev.t IN
@@ -68,7 +73,9 @@ XDiagnose ==
     [] t = "refuse" -> IF XV.ok THEN "C19.valid_expression_refused"
                        ELSE IF Ev.exc # XV.err THEN "C19.wrong_exception_class"
                        ELSE "refuse_not_allowed"
-    [] t = "view"   -> "C19.view_shape"
+    [] t = "viewrefuse" -> IF VF.ok THEN "C19.valid_view_refused" ELSE "C19.wrong_exception_class"
+    [] t = "viewvalue"  -> "C19.invalid_view_returned_an_element"
+    [] t = "view"   -> IF ~VF.ok THEN "C19.invalid_view_returned_an_element" ELSE "C19.view_shape"
     [] t = "probe"  -> "C19.view_element"
     [] OTHER        -> Diagnose
 
